@@ -160,7 +160,11 @@ func (x *Explorer) event(ev Event) bool {
 func (x *Explorer) store(addr, val *Term) {
 	switch addr.Kind {
 	case KFieldAddr:
-		for id, a := range x.cells {
+		for _, id := range x.liveIDs() {
+			a := x.cells[id]
+			if a == nil {
+				continue
+			}
 			if id == addr.ID || a.Kind != KFieldAddr || a.Var != addr.Var {
 				continue
 			}
@@ -177,7 +181,11 @@ func (x *Explorer) store(addr, val *Term) {
 			x.setMem(a, unkTerm)
 		}
 	case KIndexAddr:
-		for id, a := range x.cells {
+		for _, id := range x.liveIDs() {
+			a := x.cells[id]
+			if a == nil {
+				continue
+			}
 			if id == addr.ID || a.Kind != KIndexAddr {
 				continue
 			}
@@ -200,7 +208,11 @@ func (x *Explorer) store(addr, val *Term) {
 	case KAlloc, KGlobal:
 	default:
 		// store through an unknown pointer: invalidate heap cells of the same type
-		for id, a := range x.cells {
+		for _, id := range x.liveIDs() {
+			a := x.cells[id]
+			if a == nil {
+				continue
+			}
 			if id == addr.ID {
 				continue
 			}
@@ -213,7 +225,11 @@ func (x *Explorer) store(addr, val *Term) {
 		}
 	}
 	// writing a whole struct/array cell invalidates cached sub-cells
-	for id, a := range x.cells {
+	for _, id := range x.liveIDs() {
+		a := x.cells[id]
+		if a == nil {
+			continue
+		}
 		if id != addr.ID && (a.Kind == KFieldAddr || a.Kind == KIndexAddr) && a.Contains(addr) {
 			if _, live := x.mem[id]; live {
 				old, ok := x.mem[id]
